@@ -46,7 +46,8 @@ struct Call {
   std::string id;       // plugin id ("R1.g1.d0", "R1.a1", ...)
   std::string method;   // "prerun" | "run" | "init"
   int tick = 0;
-  double t = 0;         // virtual time
+  double t = 0;         // virtual time at call
+  double tEnd = 0;      // virtual time at return
   int ret = 0;          // PluginRet of run
   // ActionContext snapshot
   std::string ruleset, group, uuid;
